@@ -111,6 +111,21 @@ Example C06_nonvacuous_concrete_tool :
     (In [98;9;120;10;98;9;122;10]%Z [o0; o1; o2]).
 Proof. vm_compute. eexists _, _, _. split; [reflexivity|]. split; [discriminate|]. simpl. tauto. Qed.
 
+(* option handling (ParseArgs): whatever is accepted has at least one output, so the
+   modulus of the shard index is never 0; with --prefix/--number the outputs are
+   exactly the generated names and the number is positive *)
+Theorem C06_accepted_arguments_have_outputs :
+  forall o ranges outs c, shard_parse_args o = Some (ranges, outs, c) -> outs <> [].
+Proof. exact parse_args_nonempty. Qed.
+Print Assumptions C06_accepted_arguments_have_outputs.
+
+Theorem C06_prefix_number_gives_names :
+  forall o ranges outs c p n,
+    o_outputs o = [] -> o_prefix o = Some p -> o_number o = Some n ->
+    shard_parse_args o = Some (ranges, outs, c) -> outs = names p n /\ 0 < n.
+Proof. exact parse_args_prefix_names. Qed.
+Print Assumptions C06_prefix_number_gives_names.
+
 Example C06_nonvacuous_shard :
   let kh := fun l : list Z => match l with [] => 0 | (b :: _)%list => Z.to_N b end in
   shard kh 3 [[97]; [98; 1]; [99]; [97]; []; [100]; [98; 2]]%Z =
